@@ -31,9 +31,12 @@ static Verdict sonic_parse(const std::string& text, Document& doc) {
 static const char* code_name(int c) { return sonic_json::ErrorMsg((sonic_json::SonicError)c); }
 
 // the whole oracle for one text; returns "" or a failure message
-static std::string judge(const std::string& text, Case& c, bool classify) {
+// `recycled`: a document that has parsed something else before (the caller may have Clear()ed its pool): whatever the earlier
+// parse left in memory must not influence the verdict
+static std::string judge(const std::string& text, Case& c, bool classify, Document* recycled = nullptr) {
   refjson::Result r = refjson::parse(text);
-  Document doc;
+  Document fresh;
+  Document& doc = recycled ? *recycled : fresh;
   Verdict v = sonic_parse(text, doc);
   size_t len = text.size();
   char b[256];
@@ -155,6 +158,23 @@ static void property(Src& s, Case& c) {
   c.cls("pad%32=" + std::to_string(pad % 32 / 8 * 8) + "..");
   if (c.counting) c.desc(what + " | " + printable(padded, 120));
   check(padded, c, what);
+  if (s.coin(1, 4)) {
+    // the same text parsed by a document that parsed the (valid, longer) base text before and whose pool was Clear()ed: the
+    // earlier text is still lying in the recycled memory
+    // (the document's pool works inside a caller-supplied buffer: Clear() keeps that chunk, so the new text lands exactly where
+    // the old one was)
+    static std::vector<char> ubuf(1 << 20);
+    sonic_json::MemoryPoolAllocator<> upool(ubuf.data(), ubuf.size());
+    Document d(&upool);
+    std::string longer = std::string(pad, ' ') + "[" + base + ",0,[1],{\"k\":2}]";
+    d.Parse(longer);
+    bool clear = s.coin(2, 3);
+    if (clear) d.GetAllocator().Clear();
+    c.cls(clear ? "document:recycled-after-Clear" : "document:reused");
+    std::string m = judge(padded, c, false, &d);
+    c.subevals++;
+    if (!m.empty()) c.fail(m + " [" + what + ", document that parsed a longer text before" + (clear ? ", pool Clear()ed" : "") + "] text=" + printable(padded, 200));
+  }
   // non-trivial: at least 2 bytes and the verdict is not decided by the first byte
   {
     refjson::Result r = refjson::parse(text);
@@ -176,6 +196,21 @@ static void property(Src& s, Case& c) {
       std::string m = judge(pre, c, false);
       c.subevals++;
       if (!m.empty()) c.fail(m + " [prefix " + std::to_string(n) + "] text=" + printable(pre, 200));
+    }
+    // the same sweep with ONE document whose pool is Clear()ed between the parses, starting from the complete text
+    {
+      static std::vector<char> ubuf2(1 << 20);
+      sonic_json::MemoryPoolAllocator<> upool(ubuf2.data(), ubuf2.size());
+      Document d(&upool);
+      d.Parse(std::string(pad, ' ') + base);
+      for (size_t n = 0; n < base.size(); n++) {
+        std::string pre = std::string(pad, ' ') + base.substr(0, n);
+        d.GetAllocator().Clear();
+        c.note("text", pre);
+        std::string m = judge(pre, c, false, &d);
+        c.subevals++;
+        if (!m.empty()) c.fail(m + " [prefix " + std::to_string(n) + ", recycled document] text=" + printable(pre, 200));
+      }
     }
     count_class("prefix-evals", base.size());
   }
